@@ -85,6 +85,12 @@ static int pathops(const char *script, const char *outp) {
       for (int i = 0; i < 6 && 3 + i < nt; i++) {
         const char *t = tok[3 + i];
         if (t[0] == 'p') { strncpy(strs[ns], strcmp(t + 2, "-") ? t + 2 : "", sizeof strs[0] - 1); a[i] = (unsigned long)strs[ns++]; }
+        else if (t[0] == 'q') {
+          // the same, with the string lying across a page boundary (half of it on either side)
+          static char *pg[8]; if (!pg[ns]) pg[ns] = mmap(NULL, 4 * 4096, PROT_READ | PROT_WRITE, MAP_PRIVATE | MAP_ANONYMOUS, -1, 0);
+          size_t L = strlen(t + 2); char *at = pg[ns] + 2 * 4096 - (L / 2 ? L / 2 : 1);
+          memcpy(at, t + 2, L + 1); a[i] = (unsigned long)at; ns++;
+        }
         else if (t[0] == 'd') a[i] = po_dspec(t + 2);
         else if (t[0] == 'n') a[i] = strtoul(t + 2, NULL, 0);
         else if (t[0] == 'h') { how[0] = strtoul(t + 2, NULL, 0); how[1] = 0; how[2] = 0; a[i] = (unsigned long)how; }
